@@ -182,6 +182,8 @@ def install_misc(hooks, builder):
     """int(token, base=0) of a data value; open() of an include_bytes path; iteration over Sequence.values"""
     parsed = {}
 
+    builder.parsed_values = parsed
+
     def int_of_str(it, s, base):
         key = s.t.get_id()
         if key not in parsed:
@@ -308,28 +310,43 @@ def data_obligations(ctx, ph, cls, tag, paths, replay):
         if cls.name == 'Sequence':
             b = st.builder
             nm = st.item.fields.get('name')
-            for k, pk in enumerate(b.pack_calls):
+            origs = [v for _, v in getattr(b, 'parsed_values', {}).values()]     # int(token, 0) of each value, in order
+            packs = b.pack_calls
+            if not isinstance(nm, I.Sym):
+                continue
+            # (1) every value that reaches struct.pack: little-endian, documented width, the bytes are the image of the
+            #     ORIGINAL value modulo 2**(8w), and the original value is inside the documented range
+            for k, pk in enumerate(packs):
                 info = fmt_info(pk.fmt)
                 goal = z3.BoolVal(False)
-                if info is not None and isinstance(nm, I.Sym) and isinstance(pk.value, I.Sym):
+                if info is not None and isinstance(pk.value, I.Sym) and k < len(origs):
                     sz, sg, little = info
-                    v = pk.value.t
+                    v0 = origs[k].t
                     conds = []
                     for d, w in widths.items():
                         if d.startswith('d'):
                             continue
-                        # the code was chosen under the path's sign test; it must be the documented width, little-endian,
-                        # and its accepted range must coincide with the documented one on this side of the sign test
-                        lo, hi = (-(1 << (8 * sz - 1)), (1 << (8 * sz - 1)) - 1) if sg else (0, (1 << (8 * sz)) - 1)
-                        acc = z3.And(v >= lo, v <= hi)
-                        doc = z3.And(v >= -(1 << (8 * w - 1)), v < (1 << (8 * w)))
-                        conds.append(z3.Implies(nm.t == I.str_id(d), z3.And(z3.BoolVal(little and sz == w), z3.Implies(acc, doc))))
+                        doc = z3.And(v0 >= -(1 << (8 * w - 1)), v0 < (1 << (8 * w)))
+                        conds.append(z3.Implies(nm.t == I.str_id(d), z3.And(z3.BoolVal(little and sz == w), doc,
+                                                                            (pk.value.t - v0) % (1 << (8 * w)) == 0)))
                     goal = z3.And(*conds)
-                ctx.add(Obligation('%s/%s/value%d-packed-little-endian-documented-width#%d' % (fn, tag, k, i), list(p.pc[:pk.pc_len]),
-                                   goal, 'INT', func=fn, kind='post', cover=False, meta={'replay': ('data_range', {}), 'props': ['C10']}))
-            if p.kind == 'raise' and p.value.cls.name == 'struct.error':
-                # refusal must mean the value does not fit the documented range
-                pass
+                ctx.add(Obligation('%s/%s/value%d-emitted-as-little-endian-image-of-a-value-in-the-documented-range#%d' % (fn, tag, k, i),
+                                   list(p.pc[:pk.pc_len]), goal, 'INT', func=fn, kind='post', cover=False,
+                                   meta={'replay': ('data_range', {}), 'props': ['C10'],
+                                         'what': 'a sequence value outside its documented range is emitted (wrapped) or the bytes are not its little-endian image'}))
+            # (2) a refusal because of a value means that value is outside the documented range (legal values are accepted)
+            if p.kind == 'raise' and p.value.cls.name in ('struct.error', 'AssemblerError') and len(origs) > len(packs):
+                k = len(packs)
+                v0 = origs[k].t
+                all_parse = [ok for ok, _ in b.parsed_values.values()]      # a token that is not an integer is a legitimate refusal
+                conds = []
+                for d, w in widths.items():
+                    if d.startswith('d'):
+                        continue
+                    doc = z3.And(v0 >= -(1 << (8 * w - 1)), v0 < (1 << (8 * w)))
+                    conds.append(z3.Implies(nm.t == I.str_id(d), z3.Not(doc)))
+                ctx.add(Obligation('%s/%s/value%d-refused-only-outside-the-documented-range#%d' % (fn, tag, k, i), list(p.pc) + all_parse, z3.And(*conds),
+                                   'INT', func=fn, kind='raises', cover=False, meta={'replay': ('data_range', {}), 'props': ['C10']}))
 
 
 # ---------------------------------------------------------------------------
